@@ -1,8 +1,8 @@
 //@ inject: src/ui/command/parser/mod.rs
 //@ anchor: src/ui/command/parser/mod.rs :: fn hex
 //@ anchor: src/ui/command/parser/mod.rs :: fn int
-//@ fragment: HEX :: src/ui/command/parser/mod.rs :: fn hex :: `usize::from_str_radix(s, 16)` .. `Rich::custom(span, e))`
-//@ fragment: INT :: src/ui/command/parser/mod.rs :: fn int :: `s.parse::<T>()` .. `Rich::custom(span, e))`
+//@ fragment: HEX :: src/ui/command/parser/mod.rs :: fn hex :: `^.try_map(|s: &str, span| {` .. `^}),`
+//@ fragment: INT :: src/ui/command/parser/mod.rs :: fn int :: `^text::int(10).try_map(|s: &str, span|` .. `^$)`
 //@ harness: name=c08_hex_closure prop=C08 unit=C08.hex mode=bounded bound="hex-digit strings of at most 18 characters (overflow needs 17)" fn="ui::command::parser::hex (conversion closure)" timeout=900
 //@ harness: name=c08_int_closure_u32 prop=C08 unit=C08.int_u32 mode=bounded bound="decimal strings of at most 11 characters (u32 overflow needs 10)" fn="ui::command::parser::int::<u32> (conversion closure)" timeout=900
 //@ assume: chumsky delivers to the closure exactly the digits it matched (non-empty, all hex / decimal digits)
